@@ -18,7 +18,7 @@ import (
 func init() {
 	Register(&Rule{
 		ID:    "IFACEEQ",
-		Props: []string{"C01", "C06", "C10"},
+		Props: []string{"C01", "C06", "C10", "C07"},
 		Min:   4,
 		Doc: "every interface ==/!= with two non-constant operands is classified by provenance: an operand that originates " +
 			"from a node's Key/Value slot, from an entry{Key,Value}, or from a key/value argument of the exported API is a " +
